@@ -23,7 +23,9 @@ SPEC = {
                    "written by the real counter library at chosen CounterTimes (years 200..9700, month/year/leap "
                    "boundaries) for one to three PROGRAMS (build info set per file) so that local/ lists a week's files in "
                    "forward, reversed or random order relative to their begin days, two thirds of the multi-file scenarios "
-                   "inside one week, opt-in date placed between the begin days, mode file with the opt-in date at begin-1d / begin / begin+1d / end-1d / end / end+1d / far, "
+                   "inside one week, opt-in date placed between the begin days, a third of the files of multi-program scenarios "
+                   "with damaged metadata (TimeBegin or TimeEnd key misspelt / value unparsable, same length), for a quarter "
+                   "of the scenarios the week's report already in upload/ or waiting in local/ (crossed with every mode), mode file with the opt-in date at begin-1d / begin / begin+1d / end-1d / end / end+1d / far, "
                    "written raw or by the real SetModeAsOf, modes on/local/off/other/absent/directory, a fifth of the raw files "
                    "with a white-space separator other than one space after the word (TAB, LF, VT, FF, CR, CRLF, NBSP, U+0085, "
                    "U+2003, U+2028, U+3000, U+1680) followed by a date / comment / nothing, start instant at "
@@ -39,7 +41,8 @@ SPEC = {
                    "every 40th case runs counter.Open/Inc/Add/NewStack in a child process against a dir with "
                    "a generated mode; 3 fixed year-1 cases (zero-time sentinel). observables: requests received, names in "
                    "local/ and upload/ after, recursive sha256 snapshot before/after, mode file. distinct = distinct case "
-                   "lines; every case is compared with the model run and checked by the oracle"),
+                   "lines; every case is compared with the model run and checked by the oracle; each case runs under a 60 s "
+                   "watchdog (a call that does not return becomes a PROP hang case)"),
     ],
     "technique": "Coq proof (decision functions and the uploader run as a Gallina function from an abstract file-system "
                  "state to an effect list; induction over the loops; calendar/string-order facts by one-era vm_compute "
